@@ -1,6 +1,7 @@
 package htsim
 
 import (
+	"os"
 	"encoding/json"
 	"fmt"
 	"sort"
@@ -211,6 +212,9 @@ func runC04(t *testing.T, sc *Scenario) Result {
 	pn := sc.ParamStr("proto", "")
 	obsV := RunScenario(t, sc, nil)
 	res.Digest = traceDigest(obsV, c04Skip)
+	if os.Getenv("VERIF_TRACE") != "" {
+		res.Sample = dumpObs(obsV, c04Skip)
+	}
 	res.Steps = obsV.Steps
 	res.SimMs = obsV.SimMs
 	res.Nontriv = isSegmented(sc)
